@@ -255,7 +255,15 @@ def repair_d04(s):
         nm = m.group(2)
         if nm.startswith('#') and m.group(1) == '&':
             return m.group(0)
-        if nm == '' or (not is_name_start(nm[0]) and is_name_char(nm[0])):
+        if nm == '':
+            # an empty name is accepted only where white space, "?>", ";", ")" or "|" follows
+            nxt = m.string[m.end():m.end() + 2]
+            if m.group(1) == '<?' and not (nxt[:1] in (' ', '\t', '\r', '\n') or nxt == '?>'):
+                return m.group(0)
+            if m.group(1) == '&' and nxt[:1] != ';':
+                return m.group(0)
+            return m.group(1) + '_'
+        if not is_name_start(nm[0]) and is_name_char(nm[0]):
             return m.group(1) + '_' + nm
         return m.group(0)
     return NAME_POS.sub(fix, s)
